@@ -191,13 +191,15 @@ def check_operations(ctx):
                    ('dest = dest + rhs*dt' if ode else 'dest = rhs') + ' into params iff param_flag > 0 else into state', '; '.join(problems))
         # destination binding
         f = ctx.fn('types:%s.initialize' % cls)
-        ifs = [s for s in f.body if isinstance(s, ast.If) and 'in params2index' in src(s.test)]
+        ifs = [s for s in f.body if isinstance(s, ast.If) and isinstance(s.test, ast.Compare) and len(s.test.ops) == 1
+               and isinstance(s.test.ops[0], (ast.In, ast.NotIn)) and src(s.test.comparators[0]) == 'params2index']
         ok = False
         if ifs:
             i = ifs[-1]
-            name = src(i.test).split(' in ')[0]
-            b1 = sorted(util.stmt_key(s) for s in i.body)
-            b2 = sorted(util.stmt_key(s) for s in i.orelse)
+            name = src(i.test.left)
+            pos, neg = (i.body, i.orelse) if isinstance(i.test.ops[0], ast.In) else (i.orelse, i.body)      # either orientation of the test
+            b1 = sorted(util.stmt_key(s) for s in pos)
+            b2 = sorted(util.stmt_key(s) for s in neg)
             ok = b1 == sorted(['self.param_flag = 1', 'self.dest_index = params2index[%s]' % name]) and \
                 b2 == sorted(['self.param_flag = 0', 'self.dest_index = species2index[%s]' % name])
         ctx.ob('R9.2-destination', cls, ok, ctx.loc('types', f),
